@@ -505,8 +505,11 @@ def run(ck):
     else:
         levels = (-1.0, -0.75, -0.5, -0.25, 0.0, 0.25, 0.5, 0.75, 1.0)
         slots = range(6)
+    # norms on both sides of one and of two quantisation steps (1/511) from 1, where a "close enough to unit" shortcut
+    # would sit, besides the far ones
     scales = (1.0, 0.1, 10.0, ('norm', 1.0), ('norm', 0.991), ('norm', 1.009), ('norm', 0.9999), ('norm', 1.0001),
-              ('norm', 1e-6), ('norm', 1e6))
+              ('norm', 1.0015), ('norm', 0.9985), ('norm', 1.0019), ('norm', 0.9981), ('norm', 1.003), ('norm', 0.997),
+              ('norm', 1.0045), ('norm', 1e-6), ('norm', 1e6))
     jobs = [('fp16', None)]
     jobs += [('lh_angle', s) for s in slots]
     jobs += [('quat', (levels, scales, c, 4)) for c in range(4)]
